@@ -30,12 +30,53 @@ fn doc_secret(w: &World, d: usize) -> &iroh_docs::NamespaceSecret {
 /// default-filled request record (uniform shape for TLC)
 fn req(op: &str, d: usize) -> Value {
     json!({"ev":"Req","op":op,"d":d,"sync":false,"sub":false,"sid":0,
-           "e":{"a":1,"k":[],"ts":1,"h":1,"len":1},"a":1,"k":[],"kind":"read","res":"","val":[]})
+           "e":{"a":1,"k":[],"ts":1,"h":1,"len":1},"a":1,"k":[],"kind":"read","res":"","val":[],
+           "pol":{"kind":"except","filters":[]},"report":[]})
 }
 
 thread_local! {
     /// every 4th history concentrates on the useful-peer list (registrations of few peers, reads, drops and re-creations)
     static PEER_FOCUS: std::cell::Cell<bool> = const { std::cell::Cell::new(false) };
+    /// every 4th history concentrates on what the actor hands to the store without asking for an open document:
+    /// download policies, news detection, the protected hash list - between remote inserts, drops and re-creations
+    static META_FOCUS: std::cell::Cell<bool> = const { std::cell::Cell::new(false) };
+}
+
+fn gen_policy(r: &mut Rng) -> Value {
+    let kind = if r.chance(1, 2) { "only" } else { "except" };
+    let n = *r.pick(&[0usize, 1, 1, 2]);
+    let filters: Vec<Value> = (0..n)
+        .map(|_| json!([if r.chance(1, 2) { "prefix" } else { "exact" }, key_json(KEYS[r.below(5)])]))
+        .collect();
+    json!({"kind": kind, "filters": filters})
+}
+
+/// one of the requests about policies / news / hashes
+fn gen_meta(r: &mut Rng, d: usize, now: u64) -> Value {
+    let y = r.below(100);
+    if y < 35 {
+        let mut q = req("SetPolicy", d);
+        q["pol"] = gen_policy(r);
+        q
+    } else if y < 55 {
+        req("GetPolicy", d)
+    } else if y < 80 {
+        // a head report of 1-3 distinct authors (author 3 is unknown to the store) around the timestamps in use
+        let mut q = req("HasNews", d);
+        let mut rep = vec![];
+        for a in 1..=3 {
+            if r.chance(2, 3) {
+                rep.push(json!([a, r.below(now as usize + 2)]));
+            }
+        }
+        if rep.is_empty() {
+            rep.push(json!([1 + r.below(3), now]));
+        }
+        q["report"] = json!(rep);
+        q
+    } else {
+        req("Hashes", d)
+    }
 }
 
 pub fn gen_batches(r: &mut Rng, len: usize) -> Vec<Value> {
@@ -76,6 +117,32 @@ pub fn gen_batches(r: &mut Rng, len: usize) -> Vec<Value> {
             if x >= 100 {
                 x = 99;
             }
+            if META_FOCUS.with(|c| c.get()) && r.chance(1, 2) {
+                let y = r.below(100);
+                let mut q = if y < 60 {
+                    gen_meta(r, d, now)
+                } else if y < 80 {
+                    // (author 3 is not imported into the store: it only ever appears through remote entries)
+                    let mut q = req("InsertRemote", d);
+                    let h = *r.pick(&[0i64, 1, 2]);
+                    q["e"] = json!({"a":1 + r.below(3),"k":key_json(KEYS[r.below(5)]),"ts":1 + r.below(now as usize + 2),"h":h,"len": if h == 0 {0} else {1}});
+                    q
+                } else if y < 88 {
+                    req("Drop", d)
+                } else if y < 94 {
+                    let mut q = req("Import", d);
+                    q["kind"] = json!("write");
+                    q
+                } else {
+                    let mut q = req("Open", d);
+                    q["sync"] = json!(true);
+                    q["sub"] = json!(r.chance(1, 2));
+                    q
+                };
+                q["now"] = json!(now);
+                reqs.push(q);
+                continue;
+            }
             let mut q = if x < 22 {
                 let mut q = req("Open", d);
                 q["sync"] = json!(r.chance(1, 2));
@@ -112,8 +179,10 @@ pub fn gen_batches(r: &mut Rng, len: usize) -> Vec<Value> {
                 q["a"] = json!(1 + r.below(2));
                 q["k"] = key_json(KEYS[r.below(5)]);
                 q
-            } else if x < 88 {
+            } else if x < 84 {
                 req("GetState", d)
+            } else if x < 88 {
+                gen_meta(r, d, now)
             } else if x < 91 {
                 req("Subscribe", d)
             } else if x < 93 {
@@ -282,6 +351,35 @@ async fn exec(w: Arc<World>, h: SyncHandle, q: Value, sub: Option<async_channel:
         "GetPeers" => fin!(h.get_sync_peers(ns).await, |v: Option<Vec<[u8; 32]>>| {
             json!(v.unwrap_or_default().iter().map(|p| w.peer_rank(p)).collect::<Vec<i64>>())
         }),
+        "SetPolicy" => fin!(h.set_download_policy(ns, crate::docs::policy_of(&q["pol"])).await, |_| json!([])),
+        "GetPolicy" => fin!(h.get_download_policy(ns).await, |p: iroh_docs::store::DownloadPolicy| json!([crate::docs::policy_json(&p)])),
+        "HasNews" => {
+            let mut heads = iroh_docs::AuthorHeads::default();
+            for p in q["report"].as_array().unwrap() {
+                heads.insert(w.author(p[0].as_i64().unwrap()).id(), p[1].as_u64().unwrap());
+            }
+            fin!(h.has_news_for_us(ns, heads).await, |n: Option<std::num::NonZeroU64>| json!([n.map(|x| x.get()).unwrap_or(0)]))
+        }
+        "Hashes" => match h.content_hashes().await {
+            Err(err) => q["res"] = json!(anyhow_class(&err)),
+            Ok(it) => {
+                let mut v = vec![];
+                let mut bad = false;
+                for x in it {
+                    match x {
+                        Ok(hash) => v.push(w.hash_rank(&hash)),
+                        Err(_) => bad = true,
+                    }
+                }
+                v.sort();
+                v.dedup();
+                if bad {
+                    q["res"] = json!("err");
+                } else {
+                    ok(&mut q, json!([v]));
+                }
+            }
+        },
         other => panic!("unknown actor op {other}"),
     }
     q
@@ -374,8 +472,10 @@ pub fn run(w: Arc<World>, seed: u64, rng: &mut Rng, schedules: Vec<Value>, n: us
         .collect();
     for i in 0..n {
         PEER_FOCUS.with(|c| c.set(i % 4 == 3));
+        META_FOCUS.with(|c| c.set(i % 4 == 1));
         runs.push((gen_batches(rng, if i % 3 == 0 { 10 } else { 40 }), i % 3 == 1));
         PEER_FOCUS.with(|c| c.set(false));
+        META_FOCUS.with(|c| c.set(false));
     }
     for (i, (batches, file)) in runs.iter().enumerate() {
         let path = dir.join(format!("actor-{i}.redb"));
